@@ -29,6 +29,21 @@ from pony.orm import core
 DEL_STATUSES = ('marked_to_delete', 'deleted', 'cancelled')
 
 
+def m2m_table(i, j, a):
+    lo, hi = sorted([(i, j), (a['tgt'], a['rev'])])
+    return 'L_%d_%d_%d_%d' % (lo + hi)
+
+
+def m2m_links(schema):
+    """[(table, (e, a), (e2, a2))] for every many-to-many relationship, canonical side first."""
+    out = []
+    for i, e in enumerate(schema['ents']):
+        for j, a in enumerate(e['attrs']):
+            if a['k'] == 'set' and schema['ents'][a['tgt']]['attrs'][a['rev']]['k'] == 'set' and (i, j) < (a['tgt'], a['rev']):
+                out.append((m2m_table(i, j, a), (i, j), (a['tgt'], a['rev'])))
+    return out
+
+
 def build(schema, path):
     db = orm.Database('sqlite', path, create_db=True)
     ents = []
@@ -41,8 +56,12 @@ def build(schema, path):
             if a['k'] == 'int': d[name] = cls(int, unique=True) if a['uniq'] else cls(int)
             elif a['k'] == 'str': d[name] = cls(str, unique=True) if a['uniq'] else cls(str)
             elif a['k'] == 'ref': d[name] = cls('E%d' % a['tgt'], reverse='a%d' % a['rev'])
+            elif a['k'] == 'set' and schema['ents'][a['tgt']]['attrs'][a['rev']]['k'] == 'set':      # many-to-many (stage 2)
+                d[name] = orm.Set('E%d' % a['tgt'], reverse='a%d' % a['rev'], table=m2m_table(i, j, a))
             elif a['k'] == 'set': d[name] = orm.Set('E%d' % a['tgt'], reverse='a%d' % a['rev'])
             else: raise ValueError(a)
+        if e.get('ckeys'):
+            d['_indexes_'] = [core.Index(*[d['a%d' % j] for j in ck], is_pk=False, is_unique=True) for ck in e['ckeys']]
         ents.append(type('E%d' % i, (db.Entity,), d))
     db.generate_mapping(create_tables=True)
     return db, ents
@@ -154,7 +173,7 @@ class Runner(object):
 
     def spec_dump(self, op, res, d):
         try:
-            v = self.spec.check_dump(d)
+            v = self.spec.check_dump(d, self.dump_links(), self.has_column)
         except Exception as e:
             import traceback
             self.spec.stopped = 'internal error'
@@ -242,9 +261,29 @@ class Runner(object):
         try:
             out = []
             for i, e in enumerate(self.schema['ents']):
-                cols = ['id'] + ['a%d' % j for j, a in enumerate(e['attrs']) if a['k'] != 'set']
+                cols = ['id'] + ['a%d' % j for j, a in enumerate(e['attrs']) if a['k'] != 'set' and self.has_column(i, j)]
                 rows = con.execute('select %s from "E%d" order by id' % (', '.join('"%s"' % c for c in cols), i)).fetchall()
                 out.append([[r[0], list(r[1:])] for r in rows])
+            return out
+        finally:
+            con.close()
+
+    def has_column(self, i, j):
+        """False for the side of a one-to-one relationship that holds no column (stage 2)."""
+        a = self.schema['ents'][i]['attrs'][j]
+        if a['k'] != 'ref' or self.schema['ents'][a['tgt']]['attrs'][a['rev']]['k'] != 'ref': return True
+        return bool(self.ents[i]._adict_['a%d' % j].columns)
+
+    def dump_links(self):
+        """Rows of the many-to-many tables (stage 2): {table: sorted [(id of canonical side, id of other side)]}."""
+        links = m2m_links(self.schema)
+        if not links: return {}
+        con = sqlite3.connect(self.path, timeout=5)
+        try:
+            out = {}
+            for table, (e1, a1), (e2, a2) in links:
+                c1, c2 = 'e%d' % e1, 'e%d' % e2
+                out[table] = sorted(tuple(r) for r in con.execute('select "%s", "%s" from "%s"' % (c1, c2, table)).fetchall())
             return out
         finally:
             con.close()
@@ -281,9 +320,12 @@ class Runner(object):
         for key, index in list(cache.indexes.items()):
             for val, obj in list(index.items()):
                 st = obj._status_
-                if isinstance(key, tuple):
+                if isinstance(key, tuple) and key == obj._pk_attrs_:
                     cur = obj._pkval_; live = st not in ('deleted', 'cancelled')
                     kname = 'pk'
+                elif isinstance(key, tuple):                                        # composite key (stage 2)
+                    cur = tuple(obj._vals_.get(a, NL) for a in key); live = st not in DEL_STATUSES
+                    kname = '(%s)' % ', '.join(a.name for a in key)
                 else:
                     cur = obj._vals_.get(key, NL); live = st not in DEL_STATUSES
                     kname = key.name
@@ -301,6 +343,12 @@ class Runner(object):
                     if v is not None and cache.indexes.get(attr, {}).get(v) is not obj:
                         self.violation('c11-index-missing', op, 'live object %r has %s=%r but the index maps that value to %r' % (
                             obj, attr.name, v, cache.indexes.get(attr, {}).get(v)))
+                for attrs in obj._composite_keys_:
+                    vs = tuple(obj._vals_.get(a, NL) for a in attrs)
+                    if None in vs or NL in vs: continue
+                    if cache.indexes.get(attrs, {}).get(vs) is not obj:
+                        self.violation('c11-index-missing', op, 'live object %r has (%s)=%r but the composite index maps that value to %r' % (
+                            obj, ', '.join(a.name for a in attrs), vs, cache.indexes.get(attrs, {}).get(vs)))
         # C11: two handles for one primary key
         seen = {}
         for i, o in enumerate(self.handles):
@@ -314,13 +362,27 @@ class Runner(object):
             if obj._status_ in DEL_STATUSES: continue
             for attr in obj._attrs_:
                 if not attr.reverse: continue
-                if not attr.is_collection:
+                if not attr.is_collection and not attr.reverse.is_collection:      # one-to-one (stage 2)
+                    v = obj._vals_.get(attr)
+                    if v is not None:
+                        back = v._vals_.get(attr.reverse, NL)
+                        if v._status_ in DEL_STATUSES or back is not obj:
+                            self.violation('c12-one-to-one-not-mutual', op, '%r.%s is %r (status %s) whose %s is %r' % (
+                                obj, attr.name, v, v._status_, attr.reverse.name, back))
+                elif not attr.is_collection:
                     v = obj._vals_.get(attr)
                     if v is not None:
                         sd = v._vals_.get(attr.reverse)
                         if sd is None or obj not in sd:
                             self.violation('c12-ref-not-in-collection', op, '%r.%s is %r but %r.%s does not contain it (%s)' % (
                                 obj, attr.name, v, v, attr.reverse.name, None if sd is None else sorted(map(repr, sd))))
+                elif attr.reverse.is_collection:                                      # many-to-many (stage 2)
+                    sd = obj._vals_.get(attr)
+                    for item in (sd or ()):
+                        back = item._vals_.get(attr.reverse)
+                        if item._status_ in DEL_STATUSES or back is None or obj not in back:
+                            self.violation('c12-m2m-not-mutual', op, '%r.%s contains %r (status %s) whose %s is %s' % (
+                                obj, attr.name, item, item._status_, attr.reverse.name, None if back is None else sorted(map(repr, back))))
                 else:
                     sd = obj._vals_.get(attr)
                     for item in (sd or ()):
@@ -334,6 +396,9 @@ class Runner(object):
             if obj._status_ in DEL_STATUSES: continue
             ks = [('id', obj._pkval_)] if obj._pkval_ is not None else []
             ks += [(attr.name, obj._vals_.get(attr)) for attr in obj._simple_keys_ if obj._vals_.get(attr) is not None]
+            for attrs in obj._composite_keys_:
+                vs = tuple(obj._vals_.get(a, NL) for a in attrs)
+                if None not in vs and NL not in vs: ks.append(('(%s)' % ', '.join(a.name for a in attrs), vs))
             for k in ks:
                 other = keyed.setdefault((type(obj),) + k, obj)
                 if other is not obj:
@@ -354,14 +419,22 @@ class Runner(object):
                 info = con.execute('pragma table_info("E%d")' % i).fetchall()
                 if [r[1] for r in info if r[5]] != ['id']:
                     self.violation('c14-ddl-missing-constraint', None, 'E%d: primary key columns %r' % (i, [r[1] for r in info if r[5]]))
-                uniq = set()
+                uniq = set(); uniq2 = set()
                 for ix in con.execute('pragma index_list("E%d")' % i).fetchall():
                     if ix[2]:
                         cols = [r[2] for r in con.execute('pragma index_info("%s")' % ix[1]).fetchall()]
                         if len(cols) == 1: uniq.add(cols[0])
+                        else: uniq2.add(tuple(sorted(cols)))
                 for j, a in enumerate(e['attrs']):
                     if a['k'] != 'set' and a['uniq'] and 'a%d' % j not in uniq:
                         self.violation('c14-ddl-missing-constraint', None, 'E%d.a%d is unique in the model but has no UNIQUE index' % (i, j))
+                for ck in e.get('ckeys', []):
+                    if tuple(sorted('a%d' % j for j in ck)) not in uniq2:
+                        self.violation('c14-ddl-missing-constraint', None, 'E%d: composite_key%r has no UNIQUE index' % (i, tuple(ck)))
+            for table, (e1, a1), (e2, a2) in m2m_links(self.schema):
+                pkcols = sorted(r[1] for r in con.execute('pragma table_info("%s")' % table).fetchall() if r[5])
+                if pkcols != sorted(['e%d' % e1, 'e%d' % e2]):
+                    self.violation('c14-ddl-missing-constraint', None, 'link table %s: primary key columns %r' % (table, pkcols))
         finally:
             con.close()
 
@@ -373,7 +446,14 @@ class Runner(object):
             e = self.schema['ents'][i]
             pks = [r[0] for r in tab]
             if len(set(pks)) != len(pks): self.violation('c14-duplicate-pk', op, 'E%d: %r' % (i, pks))
-            cols = [a for a in e['attrs'] if a['k'] != 'set']
+            cols = [a for j, a in enumerate(e['attrs']) if a['k'] != 'set' and self.has_column(i, j)]
+            colpos = {}
+            for j, a in enumerate(e['attrs']):
+                if a['k'] != 'set' and self.has_column(i, j): colpos[j] = len(colpos)
+            for ck in e.get('ckeys', []):
+                vs = [tuple(r[1][colpos[j]] for j in ck) for r in tab]
+                vs = [v for v in vs if None not in v]
+                if len(set(vs)) != len(vs): self.violation('c14-duplicate-unique', op, 'E%d composite key %r: %r' % (i, tuple(ck), vs))
             for c, a in enumerate(cols):
                 if a['uniq']:
                     vs = [r[1][c] for r in tab if r[1][c] is not None]
@@ -383,6 +463,8 @@ class Runner(object):
                     for r in tab:
                         if r[1][c] is not None and r[1][c] not in tgt:
                             self.violation('c15-dangling-reference', op, 'E%d[%r] column %d -> %r' % (i, r[0], c, r[1][c]))
+        for table, rows in self.dump_links().items():
+            if len(set(rows)) != len(rows): self.violation('c14-duplicate-link', op, 'table %s: %r' % (table, rows))
         if op is not None and res[0] == 'err' and self.last_dump is not None and d != self.last_dump:
             self.violation('c14-failed-commit-changed-db', op, 'commit raised %s but the database changed' % res[1])
         self.last_dump = d
